@@ -20,6 +20,7 @@ import Knut.Driver.GoSem
 import Knut.Driver.GoSemTree
 import Knut.Driver.GoSemSyn
 import Knut.Driver.C09Cmd
+import Knut.Driver.GoSemFmt
 /-! Line-protocol driver over the executable model: one request per line (`op field*`), one answer line.
 Each property contributes a handler module `Knut/Driver/<X>.lean`; add it to `handlers`. -/
 open Knut Knut.Wire
@@ -46,7 +47,8 @@ def handlers : List (List String → Option String) := [
   Knut.Driver.GoSem.handle,
   Knut.Driver.GoSemTree.handle,
   Knut.Driver.GoSemSyn.handle,
-  Knut.Driver.C09Cmd.handle
+  Knut.Driver.C09Cmd.handle,
+  Knut.Driver.GoSemFmt.handle
 ]
 
 def handle (fields : List String) : String :=
